@@ -100,8 +100,8 @@ EvIter(e) ==
                 ~(aux.reached /\ e.it >= e.min_it) /\ (e.max_it < 0 \/ e.it < e.max_it))
         /\ P("C15", "iteration counter", e.it = s.it)
         /\ P("C15", "criteria = standard definitions",
-                e.crit.ess_ok /\ e.crit.log_dZ_ok /\ e.crit.Z_err_ok /\ e.crit.frac_err_ok /\ e.crit.ratio_ok
-                /\ e.crit.logZ_ok)
+                e.crit.ess_ok /\ e.crit.log_dZ_ok /\ e.crit.Z_err_ok /\ e.crit.ratio_ok /\ e.crit.logZ_ok)
+        /\ P("C15", "fractional_error = standard definition", e.crit.frac_err_ok)
         /\ P("C15", "compared values are the reported ones", e.crit.reported_ok /\ e.crit.compared_is_reported)
         \* ---- C12
         /\ P("C12", "evaluations_cumulative", e.evals_ok)
